@@ -161,3 +161,90 @@ class CopyAliases(FunctionContract):
 
 
 CONTRACTS = [ContainerCopy(), LinkerCopy(), CopyAliases()]
+
+
+# ---------------------------------------------------------------------------------------------------------------
+# constructor-level ownership: instances never store a class-level mutable object
+# ---------------------------------------------------------------------------------------------------------------
+class InitOwnership(FunctionContract):
+    """BaseModel.__init__ / BaseLinker.__init__ / AliasMixin.__init__: every class-level list or dict an instance stores is a copy
+    (equal, not identical), so that siblings and the class never observe each other's mutations."""
+    props = ('C11',)
+
+    def __init__(self, which):
+        self.which = which
+        self.qualname = {'model': 'fsic.core.models.BaseModel.__init__', 'linker': 'fsic.core.linkers.BaseLinker.__init__',
+                         'alias': 'fsic.extensions.common.AliasMixin.__init__', 'interface': 'fsic.core.interfaces.ModelInterface.__init__'}[which]
+
+    def setup(self, interp, scenario):
+        import fsic
+        from fsic.extensions import AliasMixin
+        ctx = interp.ctx
+        e = {'stored': {}, 'which': self.which}
+
+        class M(fsic.BaseModel):
+            ENDOGENOUS = ['Y']
+            EXOGENOUS = ['X']
+            NAMES = ENDOGENOUS + EXOGENOUS
+            CHECK = ['Y']
+
+        class L(fsic.BaseLinker):
+            ENDOGENOUS = ['Z']
+            NAMES = ENDOGENOUS
+            CHECK = ['Z']
+
+        class Al(AliasMixin, M):
+            ALIASES = {'GDP': 'Y', 'out': 'GDP'}
+            PREFERRED_NAMES = ['GDP']
+        cls = {'model': M, 'linker': L, 'alias': Al, 'interface': M}[self.which]
+        e['cls'] = cls
+        obj = SObj(cls, {}, label='instance')
+        e['obj'] = obj
+
+        def add_attribute(interp_, o, args, kwargs, node):
+            e['stored'][args[0]] = args[1]
+            o.fields[args[0]] = args[1]
+            return None
+
+        def parent_init(interp_, o, args, kwargs, node):
+            e['parent_kwargs'] = dict(kwargs)
+            return None
+
+        def add_variable(interp_, o, args, kwargs, node):
+            return None
+        calls = {'fsic.core.containers.VectorContainer.add_attribute': add_attribute, 'fsic.core.containers.VectorContainer.add_variable': add_variable}
+        if self.which in ('model', 'linker'):
+            calls['fsic.core.interfaces.SolverMixin.__init__'] = parent_init
+        elif self.which == 'alias':
+            calls['fsic.core.models.BaseModel.__init__'] = parent_init
+        else:
+            calls['fsic.core.containers.VectorContainer.__init__'] = parent_init
+        interp.registry.set_calls(calls)
+        if self.which == 'linker':
+            return Call([None], {}, self_obj=obj, entry=e)
+        return Call([[1, 2, 3]], {}, self_obj=obj, entry=e)
+
+    def post(self, interp, scenario, call, out):
+        ctx = interp.ctx
+        e = call.entry
+        if out.kind == 'raise':
+            ctx.prove(False, f'constructor_does_not_raise:{getattr(exc_class(out.exc), "__name__", "?")}@{getattr(out.exc, "origin", "")}', 'raises')
+            return
+        cls = e['cls']
+        f = e['obj'].fields
+        pairs = {'model': [('endogenous', 'ENDOGENOUS'), ('check', 'CHECK')], 'linker': [('endogenous', 'ENDOGENOUS'), ('check', 'CHECK')],
+                 'alias': [('preferred_names', 'PREFERRED_NAMES')], 'interface': [('names', 'NAMES')]}[e['which']]
+        for attr, cattr in pairs:
+            v = f.get(attr)
+            c = getattr(cls, cattr)
+            ctx.prove(z3.BoolVal(v is not None and v == c), f'instance_{attr}_equals_the_class_{cattr}', 'ensures')
+            shared = any(v is getattr(k, n, None) for k in cls.__mro__ for n in ('ENDOGENOUS', 'EXOGENOUS', 'NAMES', 'CHECK', 'PREFERRED_NAMES', 'ALIASES'))
+            ctx.prove(z3.BoolVal(not shared), f'instance_{attr}_is_a_copy_not_the_class_level_object', 'own')
+        if e['which'] == 'alias':
+            al = f.get('aliases')
+            ctx.prove(z3.BoolVal(al == {'GDP': 'Y', 'out': 'Y'}), 'alias_chains_are_resolved_to_the_underlying_variable', 'ensures', note=str(al))
+            ctx.prove(z3.BoolVal(al is not cls.ALIASES), 'instance_aliases_is_a_copy_not_the_class_level_object', 'own')
+            ctx.prove(z3.BoolVal(dict(cls.ALIASES) == {'GDP': 'Y', 'out': 'GDP'} and list(cls.PREFERRED_NAMES) == ['GDP']), 'class_level_tables_untouched', 'frame')
+
+
+CONTRACTS += [InitOwnership(w) for w in ('model', 'linker', 'alias', 'interface')]
